@@ -65,6 +65,18 @@ def _second_run(obs, spec, second, lab, built, ctl, backend_kind, storage, stora
             break
         time.sleep(0.01)
     if backend_kind in ('fork', 'spawn') and obs.outcome == 'raise':
+        # Logical quiescence first: every worker process run 1 started must have exited (whatever was only queued can never start
+        # any more). The executor's process table is internal; if it is not there the time window below is all there is.
+        try:
+            ex_ = getattr(getattr(ctl.runner, 'real', None), 'executor', None)
+            procs = [p for _, p in list(getattr(ex_, '_running_id_to_future_and_process', {}).values())]
+            for p_ in procs:
+                try:
+                    p_.join(30)
+                except Exception:
+                    pass
+        except Exception:
+            pass
         # a worker started just before the raise may not have written its S record yet: wait until the trace has been stable
         # (no new record, every started task ended) for a full window
         window = 4.0 if backend_kind == 'spawn' else 1.0
